@@ -23,6 +23,9 @@ func main() {
 			subC19Stress(flag.Args())
 		case "userpanic":
 			subUserPanic(flag.Args())
+		case "lateframes":
+			subLateFrames(flag.Args()[0:])
+			return
 		case "shutdown":
 			subShutdown(flag.Args())
 		case "schedlines":
@@ -60,6 +63,7 @@ func main() {
 		runC11(rep, *tier, *seed)
 	case "C12":
 		runC12(rep, *tier, *seed)
+		runSchedSuite(rep, *tier, *seed, prop)
 	case "C13":
 		runC13(rep, *tier, *seed)
 	case "C08":
